@@ -120,7 +120,7 @@ func Run(ctx *core.Ctx) {
 // (exit 137/143: other jobs on the machine), which is neither a verdict nor a
 // property of the spec.
 func runTLC(ctx *core.Ctx, o core.TLCOpts) (*core.TLCResult, error) {
-	res, err := runTLC(ctx, o)
+	res, err := ctx.RunTLC(o)
 	if err != nil && res != nil && (strings.Contains(res.ToolErr, "TLC exit 143") || strings.Contains(res.ToolErr, "TLC exit 137")) {
 		time.Sleep(2 * time.Second)
 		return ctx.RunTLC(o)
